@@ -43,6 +43,15 @@ CHECKS = {
             "upper bounds from explicit input states.",
             "tolerances 1e-4 (picos/cvxopt) and 2e-3..5e-3 (SCS); only cvxopt is available to picos; channel_fidelity has no independent lower-bound "
             "certificate (relations + closed forms only); CVXOPT numerical breakdowns are counted as indeterminate"),
+    "C17": ("exploration",
+            "exhaustive enumeration of index / dimension / parameter-grid spaces of every constructor on the real code vs independent reference arithmetic",
+            "Every function exported by toqito.states and toqito.matrices is run over dims 2..5 (primes up to 7, thorough 13, for MUBs), qubit counts 1..5, "
+            "all index pairs, parameter grids with end points and values just outside, all argument forms (int/str/list, dense/sparse) and all catalogue "
+            "unitaries (structured + seed-derived) for the invariance statements; 15 clauses compare with literal reference matrices and index-arithmetic "
+            "partial trace / transpose / permutation operators (no toqito helper is trusted as an oracle): orthonormal maximally entangled Bell bases, marginals, "
+            "GHZ/W/Dicke support and symmetry, Werner U(x)U / isotropic U(x)conj(U) invariance and PPT thresholds, list = scalar Werner, Horodecki PPT, product bases, "
+            "MUB overlaps, trace-orthogonal operator bases of rank d^2, Weyl relations and Fourier intertwining, gate actions, documented rejections.",
+            "real parameters decided on the stated grids only; rejection demanded only where a docstring documents it; float tolerance 1e-9..1e-12"),
 }
 
 PENDING_REASON = "check not built yet in this session (work in progress; see DESIGN.md section 7 for the planned exploration)"
